@@ -33,11 +33,19 @@ func runtimeStack(buf []byte) int { return runtime.Stack(buf, true) }
 type delaySrc struct {
 	*memory.Storage
 	yield func(inject.Call)
+	// gates: schedule control of the blobs other blobs' indexing depends on (index_deps.go);
+	// written before the concurrent phase only
+	gates map[blob.Ref]*depGate
+	stats depStats
 }
 
 func (d *delaySrc) Fetch(ctx context.Context, br blob.Ref) (io.ReadCloser, uint32, error) {
 	d.yield(inject.Call{})
-	return d.Storage.Fetch(ctx, br)
+	rc, size, err := d.Storage.Fetch(ctx, br)
+	if err != nil && d.gates != nil && errors.Is(err, os.ErrNotExist) {
+		d.afterMiss(br)
+	}
+	return rc, size, err
 }
 
 func (d *delaySrc) ReceiveBlob(ctx context.Context, br blob.Ref, src io.Reader) (blob.SizedRef, error) {
@@ -57,6 +65,14 @@ type ixWorld struct {
 	// concurrently (several out-of-order delete claims noting their needs at the same time)
 	orphans       []sto.Blob
 	orphanDeletes []sto.Blob
+	// blobs with index dependencies, delivered out of order (index_deps.go)
+	// parent permanode with one camliMember claim per register permanode (EdgesTo readers)
+	parent  sto.Blob
+	members []sto.Blob
+	items         []ixItem
+	nGroups       int
+	sharedGroupOf [2]int
+	signer2       *hw.Signer
 }
 
 var (
@@ -97,6 +113,11 @@ func getIxWorld(np, nc, nv int) *ixWorld {
 		w.orphans = append(w.orphans, o)
 		w.orphanDeletes = append(w.orphanDeletes, s.Delete(o.Ref, hw.T(2006, 70+j)))
 	}
+	w.parent = s.Permanode("c14-parent")
+	for i, pn := range w.pns {
+		w.members = append(w.members, s.Claim(hw.Add, w.parent.Ref, "camliMember", pn.Ref.String(), hw.T(2008, 10+i)))
+	}
+	buildDepItems(w)
 	ixWorlds[key] = w
 	return w
 }
@@ -166,6 +187,16 @@ func runIndexHistory(root string, job jobSpec) *histResult {
 		return res
 	}
 
+	var deps *depRun
+	if job.Deps {
+		ref := getIxRef(fmt.Sprintf("%d/%d/%d", job.Permanodes, job.Claims, job.Victims), w, true, job.Handler)
+		if ref.err != nil {
+			res.Inconclusive = append(res.Inconclusive, "sequential reference index: "+ref.err.Error())
+			return res
+		}
+		deps = newDepRun(w, ref, rng, src)
+	}
+
 	clk := &clock{}
 	var vmu sync.Mutex
 	witness := func(extra map[string]any) map[string]any {
@@ -193,6 +224,17 @@ func runIndexHistory(root string, job jobSpec) *histResult {
 		cat = append(cat, catEntry{fmt.Sprintf("victim%d", j), w.victims[j], "permanode"})
 		cat = append(cat, catEntry{fmt.Sprintf("delete%d", j), w.deletes[j], "claim"})
 	}
+	if deps != nil {
+		for i := range w.items {
+			cat = append(cat, catEntry{w.items[i].name, w.items[i].b, w.items[i].typ})
+		}
+	}
+	if job.Handler {
+		cat = append(cat, catEntry{"parent", w.parent, "permanode"})
+		for i, m := range w.members {
+			cat = append(cat, catEntry{fmt.Sprintf("member%d", i), m, "claim"})
+		}
+	}
 	valueIdx := map[string]int{"": 0}
 	for i := range w.values {
 		for j, v := range w.values[i] {
@@ -200,7 +242,7 @@ func runIndexHistory(root string, job jobSpec) *histResult {
 		}
 	}
 
-	nW := len(w.pns) + 2*len(w.victims)
+	nW := len(w.pns) + 2*len(w.victims) + 1
 	recs := make([][]ixRec, nW+job.Readers+1)
 	ctx := context.Background()
 
@@ -240,6 +282,24 @@ func runIndexHistory(root string, job jobSpec) *histResult {
 		}(slot, i)
 		slot++
 	}
+	// the parent permanode and its camliMember claims (one writer, in order)
+	if job.Handler {
+		wg.Add(1)
+		go func(slot int) {
+			defer wg.Done()
+			<-start
+			var mine []ixRec
+			defer func() { recs[slot] = mine }()
+			c, r, ok := deliver(slot, slot, "parent", w.parent)
+			mine = append(mine, ixRec{"meta/parent", kop{Client: slot, Kind: "deliver", W: 1, Unknown: !ok, Call: c, Ret: r}})
+			for i, m := range w.members {
+				c, r, ok := deliver(slot, slot, fmt.Sprintf("member%d", i), m)
+				mine = append(mine, ixRec{fmt.Sprintf("meta/member%d", i), kop{Client: slot, Kind: "deliver", W: 1, Unknown: !ok, Call: c, Ret: r}})
+				mine = append(mine, ixRec{fmt.Sprintf("edge/%d", i), kop{Client: slot, Kind: "deliver", W: 1, Unknown: !ok, Call: c, Ret: r}})
+			}
+		}(slot)
+	}
+	slot++
 	// victims and their delete claims race
 	type span struct {
 		call, ret int64
@@ -304,6 +364,21 @@ func runIndexHistory(root string, job jobSpec) *histResult {
 			}
 		}
 	}()
+	// blobs with index dependencies: one goroutine per delivery
+	if deps != nil {
+		for i := range w.items {
+			for t := 0; t < w.items[i].times; t++ {
+				wg.Add(1)
+				go func(i, t int) {
+					defer wg.Done()
+					<-start
+					if err := deps.deliver(x, src, clk, jit, i, t); err != nil {
+						report("deliver-error/index", fmt.Sprintf("delivering %s (%v) to the index failed under concurrent load: %v", w.items[i].name, w.items[i].b.Ref, err), map[string]any{"blob": w.items[i].name})
+					}
+				}(i, t)
+			}
+		}
+	}
 	// readers
 	for rd := 0; rd < job.Readers; rd++ {
 		wg.Add(1)
@@ -314,7 +389,14 @@ func runIndexHistory(root string, job jobSpec) *histResult {
 			defer func() { recs[slot] = mine }()
 			<-start
 			for n := 0; n < job.Reads; n++ {
-				mine = append(mine, ixRead(ctx, x, sh, w, clk, slot, rrng, cat, valueIdx, report)...)
+				if job.Handler && rrng.Intn(100) < 25 {
+					mine = append(mine, ixHandlerRead(ctx, x, sh, w, deps, clk, slot, rrng, valueIdx, report)...)
+				} else if deps != nil && rrng.Intn(100) < 14 {
+					fi := deps.finfoItems()
+					mine = append(mine, deps.readFileInfo(x, clk, slot, "GetFileInfo", fi[rrng.Intn(len(fi))], report)...)
+				} else {
+					mine = append(mine, ixRead(ctx, x, sh, w, clk, slot, rrng, cat, valueIdx, report)...)
+				}
 				if rrng.Intn(3) == 0 {
 					jit(inject.Call{})
 				}
@@ -356,6 +438,9 @@ func runIndexHistory(root string, job jobSpec) *histResult {
 		extra = append(extra, ixRec{fmt.Sprintf("ixdel/%d", j), dk})
 		extra = append(extra, ixRec{fmt.Sprintf("cdel/%d", j), dk})
 	}
+	if deps != nil {
+		extra = append(extra, deps.records(maxT, res)...)
+	}
 	recs = append(recs, extra)
 
 	// final audit at quiescence
@@ -370,6 +455,12 @@ func runIndexHistory(root string, job jobSpec) *histResult {
 	for j := range w.victims {
 		audit = append(audit, ixDeleted(x, clk, auditSlot, "audit-Index.IsDeleted", "ixdel", j, w.victims[j].Ref, false))
 		audit = append(audit, ixDeleted(x, clk, auditSlot, "audit-Corpus.IsDeleted", "cdel", j, w.victims[j].Ref, true))
+	}
+	if deps != nil {
+		for _, i := range deps.finfoItems() {
+			audit = append(audit, deps.readFileInfo(x, clk, auditSlot, "audit-GetFileInfo", i, report)...)
+		}
+		deps.audit(x, src, report, res)
 	}
 	recs[auditSlot] = audit
 	for j := range w.orphans {
@@ -386,6 +477,8 @@ func runIndexHistory(root string, job jobSpec) *histResult {
 		switch {
 		case strings.HasPrefix(a.key, "meta/") && !a.op.Present:
 			report("lost/index/GetBlobMeta", fmt.Sprintf("after quiescence GetBlobMeta(%s) says the blob is not indexed although its delivery was acknowledged", a.key[5:]), map[string]any{"blob": a.key})
+		case strings.HasPrefix(a.key, "finfo/") && !a.op.Present:
+			report("lost/index/GetFileInfo", fmt.Sprintf("after quiescence GetFileInfo(%s) says not found although the blob and everything its indexing needs were delivered and acknowledged", a.key[6:]), map[string]any{"blob": a.key})
 		case (strings.HasPrefix(a.key, "ixdel/") || strings.HasPrefix(a.key, "cdel/")) && !a.op.Present:
 			report("lost/index/"+a.op.Kind[6:], fmt.Sprintf("after quiescence %s(victim %s) = false although the victim and its delete claim were both delivered", a.op.Kind[6:], a.key), map[string]any{"register": a.key})
 		}
@@ -429,7 +522,7 @@ func runIndexHistory(root string, job jobSpec) *histResult {
 			for _, o := range min {
 				lines = append(lines, o.String())
 			}
-			res.viol("nonlinearizable/index+corpus/"+class+"/"+anomalyClass(min),
+			res.viol("nonlinearizable/index+corpus/"+class+"/"+anomalyClass(min)+"/"+racePair(min, ops),
 				fmt.Sprintf("[index+corpus kv=%s] the history of register %s (%d operations, %d after minimisation; unexplained reads: "+readKinds(min)+") has no linearization; minimal witness:\n  %s",
 					job.KV, k, len(ops), len(min), strings.Join(lines, "\n  ")),
 				witness(map[string]any{"register": k, "minimal_history": min, "full_history_ops": len(ops)}))
@@ -459,6 +552,11 @@ func runIndexHistory(root string, job jobSpec) *histResult {
 	}
 	res.Sample = map[string]any{"case_id": job.ID, "backend": job.Label, "writers": nW, "readers": job.Readers, "registers": len(keys), "first_ops_of_attr_register_0": first}
 	res.MaxConc = nW + job.Readers
+	if deps != nil {
+		for i := range w.items {
+			res.MaxConc += w.items[i].times
+		}
+	}
 	return res
 }
 
